@@ -282,7 +282,7 @@ namespace c01
             }
             for (int x = 0; x < N; x++)
                 hsh = vf::mix(hsh, st[x]);
-            vf::state(hsh);
+            vf::state(N <= 4 ? hsh : shape_hash(0x412, N, L, model, L, (const uint8_t *)st));
         }
 #undef C01_COLLECT
         void teardown(uint64_t v)
